@@ -45,6 +45,9 @@ def shaped(g):
     out.append(("flat", g.pair(**dict(BASE, embeds=0.0))))
     for i in range(3):
         out.append(("manual-hooks", g.pair(**dict(BASE, manual=1.0))))
+    # cyclic embedding: the generator comes back, and the back reference (always nil) is never dereferenced
+    for side, v in (("src", "self"), ("dest", "self"), ("src", "mutual"), ("dest", "inner")):
+        out.append(("cyclic-embed-%s-%s" % (side, v), g.pair(**dict(BASE, embeds=1.0, ptr_embed=0.8, selfembed=1.0, selfembed_side=side, selfembed_variant=v))))
     # finding region: mapper embedded by pointer, methods used
     out.append(("ptr-mapper", g.pair(**dict(BASE, kinds=["func"], n=(2, 3), mapper_ptr=1.0, flags={"way": "both"}))))
     out.append(("ptr-mapper-idle", g.pair(**dict(BASE, kinds=["same", "sub"], n=(2, 3), mapper_ptr=1.0, mapper_idle=1.0, func_over=0.0))))
